@@ -4,6 +4,8 @@ package main
 // header, annotated and inferred (Houdini-lite) invariants.
 
 import (
+	"time"
+	"sync/atomic"
 	"fmt"
 	"go/types"
 	"os"
@@ -97,6 +99,7 @@ type loopKey struct {
 
 // invariant is a formula schema evaluated on a state.
 type invariant struct {
+	id   string // stable name among the candidates of one loop (Houdini cache)
 	desc string
 	tags []string
 	eval func(ex *Exec, fr *Frame, st *State) string
@@ -285,6 +288,9 @@ func (ex *Exec) runLoopBody(fr *Frame, lp *loopRec, reach string, st *State) []b
 func (ex *Exec) enterLoop(fr *Frame, lp *loopRec, reach string, st *State) (string, *State) {
 	ex.loopDepth++
 	defer func() { ex.loopDepth-- }()
+	savedG := ex.sc.guard
+	ex.sc.guard = reach
+	defer func() { ex.sc.guard = savedG }()
 	cells := ex.modifiedCells(fr, lp)
 	n0 := ex.sc.counter
 
@@ -460,12 +466,38 @@ func (ex *Exec) enterLoop(fr *Frame, lp *loopRec, reach string, st *State) (stri
 		lc.invs = append(lc.invs, c)
 	}
 	cands = rest
+	// A loop nested in another loop (or in a callee inlined in a loop) is analysed
+	// once per trial execution of the enclosing body. The candidate generator
+	// restricts itself to the set confirmed the previous time; that set is confirmed
+	// again by proof in this context (one round when it still holds), never assumed.
 	if len(cands) > 0 {
 		cands = ex.houdini(fr, lp, reach, hst, cands)
-		for _, c := range cands {
-			ex.sc.assert(mkImp(reach, c.eval(ex, fr, hst)))
-			lc.invs = append(lc.invs, c)
+	}
+	if hk := ex.houdiniKey(fr, lp); ex.hinted[hk] > 0 && len(cands) < ex.hinted[hk] {
+		// the set from the hints file does not hold as a whole on this tree:
+		// forget it and search among all candidates
+		delete(ex.hinted, hk)
+		delete(ex.houdiniCache, hk)
+		cands = nil
+		for _, c := range ex.inferCandidates(fr, lp, reach, st, cells, pointRefs, fullHavoc) {
+			if !c.sure {
+				cands = append(cands, c)
+			}
 		}
+		if len(cands) > 0 {
+			cands = ex.houdini(fr, lp, reach, hst, cands)
+		}
+	} else {
+		delete(ex.hinted, hk) // confirmed in this run: from now on an ordinary cache entry
+	}
+	keptSet := map[string]bool{}
+	for _, c := range cands {
+		keptSet[c.id] = true
+	}
+	ex.houdiniCache[ex.houdiniKey(fr, lp)] = keptSet
+	for _, c := range cands {
+		ex.sc.assert(mkImp(reach, c.eval(ex, fr, hst)))
+		lc.invs = append(lc.invs, c)
 	}
 	// termination bookkeeping (reported in the evidence)
 	if ex.record {
@@ -575,6 +607,20 @@ func (ex *Exec) inferCandidates(fr *Frame, lp *loopRec, reach string, st *State,
 				}})
 		}
 	}
+	// stable names; a loop analysed before (nested loop re-entered by a trial run of
+	// the enclosing body) only retries the candidates confirmed that time
+	for i, id := range candIDs(out) {
+		out[i].id = id
+	}
+	if prev, ok := ex.houdiniCache[ex.houdiniKey(fr, lp)]; ok {
+		var sub []invariant
+		for _, c := range out {
+			if c.sure || prev[c.id] {
+				sub = append(sub, c)
+			}
+		}
+		out = sub
+	}
 	// keep only candidates that hold on entry
 	goals := make([][]string, len(out))
 	for i, c := range out {
@@ -592,9 +638,21 @@ func (ex *Exec) inferCandidates(fr *Frame, lp *loopRec, reach string, st *State,
 
 // quickProveAll decides, in parallel, whether every goal of each group holds.
 func (ex *Exec) quickProveAll(groups [][]string) []bool {
+	return ex.quickProveAllT(groups, 3)
+}
+
+// quickProveAllT: only "unsat" counts as proved; limitS bounds each query.
+func (ex *Exec) quickProveAllT(groups [][]string, limitS int) []bool {
+	t0 := time.Now()
+	var nTimeout int32
+	defer func() {
+		if os.Getenv("GOVC_DEBUG") != "" {
+			fmt.Fprintf(os.Stderr, "quickProveAll: groups=%d timeouts=%d lines=%d %.1fs\n", len(groups), nTimeout, len(ex.sc.lines), time.Since(t0).Seconds())
+		}
+	}()
 	res := make([]bool, len(groups))
 	var wg sync.WaitGroup
-	sem := make(chan struct{}, 12)
+	sem := make(chan struct{}, 16)
 	base := append(prelude("ALL"), ex.sc.lines...)
 	for i, gs := range groups {
 		res[i] = true
@@ -621,9 +679,9 @@ func (ex *Exec) quickProveAll(groups [][]string) []bool {
 			file := writeQuery("houdini", lines)
 			// fixed seed and a generous limit: the inferred set must not depend on
 			// VERIF_SEED or on machine load
-			st, _, _ := runSolverSeed(solvers[0], file, 4, 0)
+			st, _, _ := runSolverSeed(solvers[0], file, limitS, 0)
 			if st != "unsat" && st != "sat" && st != "unknown" {
-				st, _, _ = runSolverSeed(solvers[1], file, 4, 0)
+				atomic.AddInt32(&nTimeout, 1)
 			}
 			if !keepScratch {
 				removeFile(file)
@@ -679,7 +737,7 @@ func (ex *Exec) houdini(fr *Frame, lp *loopRec, reach string, hst *State, cands 
 		for _, b := range backs {
 			anyBack = append(anyBack, b.cond)
 		}
-		if len(backs) == 0 || t.quickProveAll([][]string{{mkNot(mkOr(anyBack...))}})[0] {
+		if len(backs) == 0 || t.quickProveAllT([][]string{{mkNot(mkOr(anyBack...))}}, 1)[0] {
 			return nil
 		}
 		groups := make([][]string, len(cands))
@@ -711,6 +769,25 @@ func (ex *Exec) houdini(fr *Frame, lp *loopRec, reach string, hst *State, cands 
 		return nil // never assume a candidate set that was not confirmed as a whole
 	}
 	return cands
+}
+
+func (ex *Exec) houdiniKey(fr *Frame, lp *loopRec) string {
+	k := fmt.Sprintf("#%d", lp.ordinal)
+	for f := fr; f != nil; f = f.parent {
+		k = shortFn(f.fn) + "/" + k
+	}
+	return ex.hintPrefix + k
+}
+
+// candIDs names candidates by description plus ordinal among equal descriptions.
+func candIDs(cands []invariant) []string {
+	seen := map[string]int{}
+	out := make([]string, len(cands))
+	for i, c := range cands {
+		seen[c.desc]++
+		out[i] = fmt.Sprintf("%s@%d", c.desc, seen[c.desc])
+	}
+	return out
 }
 
 // guardCandidates derives "cell <= bound" candidates from comparisons inside
@@ -826,7 +903,9 @@ func (ex *Exec) guardCandidates(fr *Frame, lp *loopRec, st *State, cells []cellK
 				}
 				seen[key] = true
 				nm := a.Comment
-				if nm == "rangeindex" && bo.Op.String() == "<" && side == 0 {
+				if nm == "rangeindex" && bo.Op.String() == "<" && side == 0 && b == lp.header {
+					// (only the loop's own header test: the index of a nested range loop
+					// equals its length when that loop has finished)
 					// the hidden index of a range loop: -1 <= rangeindex <= len-1 (proved as obligations)
 					out = append(out, invariant{kind: "inferred", desc: "rangeindex <= len-1", sure: true,
 						eval: func(e *Exec, f *Frame, s *State) string {
